@@ -161,11 +161,11 @@ Lemma add_same_Rc s a cid vec keys :
   Rc s a cid -> awf a cid -> length cid = 32%nat ->
   forallb pubkey_len keys = true ->
   Z.of_nat (length (pend a cid (vec_byte vec) ++ keys)) <= 65535 ->
-  let b := vec_byte vec in
-  let a' := mkA (upd2 (pend a) cid b (pend a cid b ++ keys)) (comm a) (areps a) in
-  Rc (l2m (ents (pU :: cid ++ [b]) (length (pend a cid b)) keys) ∪ s) a' cid /\ awf a' cid.
+  let a' := mkA (upd2 (pend a) cid (vec_byte vec) (pend a cid (vec_byte vec) ++ keys)) (comm a) (areps a) in
+  Rc (l2m (ents (pU :: cid ++ [vec_byte vec]) (length (pend a cid (vec_byte vec))) keys) ∪ s) a' cid /\ awf a' cid.
 Proof.
-  intros HR Hwf Hc Hkeys Hrange b a'. set (l := pend a cid b) in *. set (n := length l).
+  intros HR Hwf Hc Hkeys Hrange. set (b := vec_byte vec) in *. intros a'.
+  set (l := pend a cid b) in *. set (n := length l).
   set (P := pU :: cid ++ [b]). set (M := l2m (ents P n keys)).
   assert (Hn : Z.of_nat (n + length keys) <= 65535) by (rewrite app_length in Hrange; unfold n; lia).
   assert (Hpa : forall v, pend a' cid v = if N.eqb v b then l ++ keys else pend a cid v)
@@ -173,7 +173,7 @@ Proof.
   assert (HMfr : forall k, is_prefix (pU :: cid) k = false -> (M ∪ s) !! k = s !! k).
   { intros k Hk. apply lookup_union_r, ents_frame.
     destruct (is_prefix P k) eqn:E; [|reflexivity]. rewrite <- Hk. symmetry.
-    eapply is_prefix_trans; [|exact E]. unfold P. simpl. rewrite N.eqb_refl. apply is_prefix_refl_app. }
+    eapply is_prefix_trans; [|exact E]. unfold P. rewrite is_prefix_cons_same. apply is_prefix_refl_app. }
   destruct pfx_heads as (N1 & N2 & N3 & N4 & N5 & N6).
   split; [split|].
   - (* pending *)
@@ -207,10 +207,10 @@ Proof.
         -- apply ents_frame. destruct (is_prefix P (ukey pU cid v j)) eqn:E; [|reflexivity].
            apply ukey_vec_prefix in E. congruence.
   - (* committed: untouched *)
-    intros k val. rewrite <- (rc_n _ _ _ HR k val). split; intros [H1 H2]; (split; [exact H1|]).
+    intros k val. unfold a'. cbn [comm]. rewrite <- (rc_n _ _ _ HR k val). split; intros [H1 H2]; (split; [exact H1|]).
     + rewrite <- HMfr; [exact H2|]. apply is_prefix_cons_inv in H1 as (x' & -> & _). by apply is_prefix_cons_ne.
     + rewrite HMfr; [exact H2|]. apply is_prefix_cons_inv in H1 as (x' & -> & _). by apply is_prefix_cons_ne.
-  - intros k val. rewrite <- (rc_r _ _ _ HR k val). split; intros [H1 H2]; (split; [exact H1|]).
+  - intros k val. unfold a'. cbn [areps]. rewrite <- (rc_r _ _ _ HR k val). split; intros [H1 H2]; (split; [exact H1|]).
     + rewrite <- HMfr; [exact H2|]. apply is_prefix_cons_inv in H1 as (x' & -> & _). by apply is_prefix_cons_ne.
     + rewrite HMfr; [exact H2|]. apply is_prefix_cons_inv in H1 as (x' & -> & _). by apply is_prefix_cons_ne.
   - destruct Hwf as [W1 W2 W3 W4]. split; try assumption.
@@ -232,7 +232,7 @@ Proof.
   ib H u2 H2. ib H u3 H3. ib H u4 H4. ib H b Hb. ib H n Hn.
   split; [exact Hc|]. intros k Hk. eapply add_loop_frame; [exact H|].
   destruct (is_prefix (pU :: cid' ++ [b]) k) eqn:E; [|reflexivity]. rewrite <- Hk. symmetry.
-  eapply is_prefix_trans; [|exact E]. simpl. rewrite N.eqb_refl. apply is_prefix_refl_app.
+  eapply is_prefix_trans; [|exact E]. rewrite is_prefix_cons_same. apply is_prefix_refl_app.
 Qed.
 
 (** * commitContainerListUpdate on the container under consideration *)
@@ -269,6 +269,13 @@ Qed.
 Lemma ukey_cons c cid v j : ukey c cid v j = c :: (cid ++ [v]) ++ ctb (Z.of_nat j + 1).
 Proof. reflexivity. Qed.
 
+Lemma commit_lookup_N (s : store) cid l k' :
+  is_prefix cid k' = true -> commit_lookup s cid l (pN :: k') = s !! (pU :: k').
+Proof.
+  intros Hp. unfold commit_lookup. destruct pfx_heads as (N1 & N2 & N3 & N4 & N5 & N6).
+  rewrite is_prefix_cons_ne, is_prefix_cons_same, Hp by done. reflexivity.
+Qed.
+
 Lemma commit_same_Rc s a cid (l : list Z) s4 :
   Rc s a cid -> awf a cid -> length cid = 32%nat ->
   (length l <= 256)%nat -> forallb rep_val_ok l = true ->
@@ -293,10 +300,9 @@ Proof.
       { split; [by rewrite is_prefix_cons_same|exact Hs]. }
       exists v, j. split; [|exact Hj]. rewrite ukey_cons in He |- *. injection He as ->. reflexivity.
     + intros (v & j & -> & Hj). split; [apply ukey_prefix|].
-      rewrite Hs4. unfold commit_lookup. rewrite ukey_cons.
-      rewrite is_prefix_cons_ne, is_prefix_cons_same by done.
-      rewrite <- app_assoc, is_prefix_refl_app. simpl.
-      apply (proj2 (rc_u _ _ _ HR (ukey pU cid v j) val)). eauto.
+      rewrite Hs4, ukey_cons, commit_lookup_N.
+      * destruct (proj2 (rc_u _ _ _ HR (ukey pU cid v j) val)) as [_ Hs]; [eauto|]. exact Hs.
+      * rewrite <- app_assoc. apply is_prefix_refl_app.
   - intros k val. rewrite Hr'. split.
     + intros [Hp Hs]. rewrite Hs4 in Hs. unfold commit_lookup in Hs.
       pose proof Hp as Hp2. apply is_prefix_cons_inv in Hp2 as (k' & -> & Hp2).
@@ -305,7 +311,7 @@ Proof.
       exists t. split; [exact He|]. by rewrite Ht.
     + intros (i & -> & Hi). split; [apply (is_prefix_refl_app (pR :: cid))|].
       rewrite Hs4. unfold commit_lookup. rewrite !is_prefix_cons_ne by done.
-      rewrite (is_prefix_refl_app (pR :: cid)).
+      rewrite is_prefix_cons_same, is_prefix_refl_app.
       destruct (l !! i) as [r|] eqn:Er; [|discriminate]. injection Hi as <-.
       apply elem_of_list_to_map_1; [apply strict_sorted, rents_sorted|].
       apply elem_of_rents. exists i, r. auto.
@@ -325,6 +331,13 @@ Proof.
   unfold apply_writes in *. simpl. rewrite IH by (intros kv Hkv; apply Hk; by right).
   assert (k0 <> k) by (apply (Hk (k0, o)); left).
   destruct o; [by apply lookup_insert_ne|by apply lookup_delete_ne].
+Qed.
+
+Lemma range_ok_from_app cid ops o : forall a,
+  range_ok_from cid a (ops ++ [o]) = range_ok_from cid a ops && range_ok_op cid (fold_left astep ops a) o.
+Proof.
+  induction ops as [|o' ops IH]; intros a; simpl; [by rewrite andb_true_r|].
+  rewrite IH. by rewrite andb_assoc.
 Qed.
 
 Section Refine.
@@ -361,7 +374,7 @@ Section Refine.
   Proof.
     intros Hc HR Hwf Hframe Hrange. unfold pstep.
     destruct o as [alpha cid' vec keys|alpha cid' reps|cid' vec|cid'|cid' msg sigs|raw sigs cur|w|pfx];
-      cbn [pexec astep about].
+      cbn [pexec astep about step_result].
     - (* OAdd *)
       destruct (decide (cid' = cid)) as [->|Hne].
       + cbn [range_ok_op] in Hrange. rewrite bytes_eqb_refl in Hrange. simpl in Hrange.
@@ -387,10 +400,10 @@ Section Refine.
         destruct (add_next_epoch_nodes alpha s cid' vec keys) as [s'|] eqn:E; cbn [obind fst snd].
         * apply add_frame in E as [Hc' Hfr].
           split; [|split; [by eapply awf_ext|discriminate]].
-          eapply Rc_ext; eauto. intros k Hk. apply Hfr.
+          apply (Rc_ext s s' a _ cid); [|exact E1|exact E2|exact E3|exact HR]. intros k Hk. apply Hfr.
           pose proof (roster_pfx_disjoint cid cid' k ltac:(congruence) ltac:(congruence) Hk) as Hd.
           unfold roster_pfx in Hd. apply orb_false_iff in Hd as [Hd _]. by apply orb_false_iff in Hd as [Hd _].
-        * split; [|split; [by eapply awf_ext|discriminate]]. eapply Rc_ext; eauto.
+        * split; [|split; [by eapply awf_ext|discriminate]]. by apply (Rc_ext s s a _ cid).
     - (* OCommit *)
       destruct (decide (cid' = cid)) as [->|Hne].
       + rewrite bytes_eqb_refl. destruct (commit_ok alpha cid reps) eqn:Eok.
@@ -424,16 +437,16 @@ Section Refine.
         * apply commit_inv in E as (_ & Hh & _ & _ & Hlk).
           unfold hash256_len in Hh. apply Nat.eqb_eq in Hh.
           split; [|split; [by eapply awf_ext|discriminate]].
-          eapply Rc_ext; eauto. intros k Hk. rewrite Hlk. unfold commit_lookup.
+          apply (Rc_ext s s4 a _ cid); [|exact E1|exact E2|exact E3|exact HR]. intros k Hk. rewrite Hlk. unfold commit_lookup.
           pose proof (roster_pfx_disjoint cid cid' k ltac:(congruence) ltac:(congruence) Hk) as Hd.
           unfold roster_pfx in Hd. apply orb_false_iff in Hd as [Hd ->]. apply orb_false_iff in Hd as [-> ->].
           reflexivity.
-        * split; [|split; [by eapply awf_ext|discriminate]]. eapply Rc_ext; eauto.
+        * split; [|split; [by eapply awf_ext|discriminate]]. by apply (Rc_ext s s a _ cid).
     - destruct (nodes s cid' vec); cbn [obind fst snd]; auto.
     - destruct (replicas_numbers s cid'); cbn [obind fst snd]; auto.
     - destruct (verify _ _ s cid' msg sigs); cbn [obind fst snd]; auto.
     - destruct (submit _ _ _ _ _ s raw sigs cur); cbn [obind fst snd]; auto.
-    - cbn [fst snd]. split; [|auto]. eapply Rc_ext; eauto.
+    - cbn [fst snd]. split; [|auto]. apply (Rc_ext s _ a a cid); [|reflexivity|reflexivity|reflexivity|exact HR].
       intros k Hk. apply apply_writes_lookup. intros kv Hkv Heq.
       cbn [frame_ok_op] in Hframe. rewrite forallb_forall in Hframe.
       apply elem_of_list_In, Hframe in Hkv. rewrite Heq, Hk in Hkv. discriminate.
@@ -500,12 +513,7 @@ Section Refine.
     step_result (arun ops) o (snd (fst (pstep (prun ops) o))).
   Proof.
     intros Hc Hf Hr Hab. unfold range_ok in Hr.
-    assert (Hsplit : forall ops a, range_ok_from cid a (ops ++ [o]) = true ->
-              range_ok_from cid a ops = true /\ range_ok_op cid (fold_left astep ops a) o = true).
-    { clear. induction ops as [|o' ops IH]; intros a H; simpl in *.
-      - apply andb_true_iff in H as [H _]. auto.
-      - apply andb_true_iff in H as [H1 H2]. destruct (IH _ H2) as [H3 H4]. rewrite H1, H3. auto. }
-    destruct (Hsplit _ _ Hr) as [Hr1 Hr2].
+    rewrite range_ok_from_app in Hr. apply andb_true_iff in Hr as [Hr1 Hr2].
     destruct (roster_refines cid ops Hc Hf Hr1) as [R W].
     assert (Hfo : frame_ok_op cid o = true) by (destruct o; try reflexivity; discriminate).
     destruct (step_inv cid (prun ops) (arun ops) o Hc R W Hfo Hr2) as (_ & _ & H). by apply H.
@@ -521,12 +529,36 @@ Section Refine.
     assert (Hf' : frame_ok cid (ops ++ [OCommit alpha cid reps]) = true).
     { unfold frame_ok. rewrite forallb_app. fold (frame_ok cid ops). rewrite Hf. reflexivity. }
     assert (Hr' : range_ok cid (ops ++ [OCommit alpha cid reps]) = true).
-    { unfold range_ok in *. revert Hr. generalize ainit. induction ops as [|o' ops IH]; intros a H; simpl in *; [reflexivity|].
-      apply andb_true_iff in H as [H1 H2]. rewrite H1. simpl. by apply IH. }
+    { unfold range_ok in *. rewrite range_ok_from_app, Hr. reflexivity. }
     destruct (roster_refines cid _ Hc Hf' Hr') as [R W].
     apply sfind_nil. intros k Hk. destruct (prun _ !! k) as [val|] eqn:E; [|reflexivity]. exfalso.
     destruct (proj1 (rc_u _ _ _ R k val) (conj Hk E)) as (v & j & _ & Hj).
     unfold arun in Hj. rewrite fold_left_app in Hj. simpl in Hj. rewrite Hok in Hj. simpl in Hj.
     rewrite upd_same in Hj. by rewrite lookup_nil in Hj.
+  Qed.
+
+  (** ** Soundness on reachable states, in terms of what was committed:
+      REP numbers and members are those of the last commit. *)
+  Theorem verify_sound_history cid ops msg sigs :
+    length cid = 32%nat -> frame_ok cid ops = true -> range_ok cid ops = true ->
+    verify sigvalid pubvalid (prun ops) cid msg sigs = Halt true ->
+    (length (areps (arun ops) cid) <= length sigs)%nat /\
+    forall (i : nat) (r : Z), areps (arun ops) cid !! i = Some r ->
+      exists si, sigs !! i = Some si /\
+        vector_ok sigvalid msg (comm (arun ops) cid (N.of_nat i)) si r.
+  Proof.
+    intros Hc Hf Hr Hv. destruct (roster_refines cid ops Hc Hf Hr) as [R W].
+    apply verify_sound in Hv as (reps & Hreps & Hlen & Hvec).
+    rewrite (reps_spec _ _ _ R W Hc) in Hreps. injection Hreps as <-.
+    rewrite map_length in Hlen. split; [exact Hlen|].
+    intros i r Hi. destruct (Hvec i (int_to_bytes r)) as (si & pubs & Hsi & Hn & _ & Hok).
+    { rewrite list_lookup_fmap, Hi. reflexivity. }
+    exists si. split; [exact Hsi|].
+    assert (Hi256 : (i < 256)%nat).
+    { apply lookup_lt_Some in Hi. pose proof (proj1 (wf_reps _ _ W)). lia. }
+    rewrite (nodes_spec _ _ _ _ R W Hc) in Hn by lia. injection Hn as <-.
+    rewrite bytes_to_int_to_bytes in Hok.
+    replace (vec_byte (Z.of_nat i)) with (N.of_nat i) in Hok; [exact Hok|].
+    unfold vec_byte. rewrite Z.mod_small by lia. lia.
   Qed.
 End Refine.
